@@ -117,17 +117,18 @@ def family_graphs(sizes=(5, 6)):
 
 
 def specs_for(tier):
-  """The complete list of project specs (n, edges, kinds, root scheme, out scheme) of a tier."""
+  """The complete list of project specs (n, edges, kinds, root scheme, out scheme, input order) of a tier."""
   specs = []
   fam = collections.OrderedDict()
 
-  def add(label, n, graphs, kindvecs, dirpairs):
+  def add(label, n, graphs, kindvecs, dirpairs, orders=("set",)):
     c = 0
     for es in graphs:
       for kv in kindvecs:
         for rs, os_ in dirpairs:
-          specs.append((n, tuple(es), "".join(kv), rs, os_))
-          c += 1
+          for order in orders:
+            specs.append((n, tuple(es), "".join(kv), rs, os_, order))
+            c += 1
     fam[label] = fam.get(label, 0) + c
 
   diag = [(s, s) for s in SCHEMES]
@@ -144,6 +145,8 @@ def specs_for(tier):
         ["BBB", "XXX"], [("all", "all")])
     add("n=3 x all 64 digraphs x LLL x 4 other diagonal dir schemes", 3, list(all_digraphs(3)),
         ["LLL"], [d for d in diag if d[0] != "all"])
+    add("n=3 x all 64 digraphs x LLL x dirs(all,all) x requested files listed ascending / descending", 3,
+        list(all_digraphs(3)), ["LLL"], [("all", "all")], ("asc", "desc"))
   else:
     add("n=1 x kinds x 25 dir pairs", 1, list(all_digraphs(1)), list(KINDS), cross)
     add("n=2 x all 4 digraphs x kinds^2 x 25 dir pairs", 2, list(all_digraphs(2)),
@@ -152,8 +155,10 @@ def specs_for(tier):
         list(itertools.product(KINDS, repeat=3)), [("all", "all")])
     add("n=3 x all 64 digraphs x LLL x 24 other dir pairs", 3, list(all_digraphs(3)),
         ["LLL"], [d for d in cross if d != ("all", "all")])
-    add("n=4 x all 4096 digraphs x LLLL x dirs(all,all)", 4, list(all_digraphs(4)),
-        ["LLLL"], [("all", "all")])
+    add("n=3 x all 64 digraphs x {L,S}^3 x dirs(all,all) x requested files listed ascending / descending", 3,
+        list(all_digraphs(3)), list(itertools.product("LS", repeat=3)), [("all", "all")], ("asc", "desc"))
+    add("n=4 x all 4096 digraphs x {LLLL, SPLS} x dirs(all,all)", 4, list(all_digraphs(4)),
+        ["LLLL", "SPLS"], [("all", "all")])
     for name, n, es in family_graphs((5, 6)):
       add("ring / ring+tail / two rings / two rings sharing a module on 5-6 modules, both labellings "
           "x {all L, LPSLPS, all S} x dirs(all,all)", n, [es],
@@ -173,7 +178,8 @@ class Project:
   """Files on disk for one spec, plus what the harness knows independently of pytype."""
 
   def __init__(self, where, spec):
-    n, edges, kinds, rs, os_ = spec
+    n, edges, kinds, rs, os_ = spec[:5]
+    self.order = spec[5] if len(spec) > 5 else "set"
     self.spec = spec
     self.n = n
     self.edges = [tuple(e) for e in edges]
@@ -649,7 +655,11 @@ def _ninja_binary():
 def generate_plan(w, proj, request, outdir):
   """main.py's pipeline from a populated config to setup_build().  Returns the runner."""
   conf = w["parser"].config_from_defaults()
+  # main.py holds the inputs in a set, so the order in which importlab sees them is an accident of string
+  # hashing; "asc"/"desc" pin it (every consumer only iterates or calls set() on it)
   conf.inputs = {proj.src[i] for i in request}
+  if proj.order != "set":
+    conf.inputs = sorted(conf.inputs, reverse=proj.order == "desc")
   conf.output = outdir
   conf.pythonpath = w["environment"].compute_pythonpath(conf.inputs)
   # importlab.fs.OSFileSystem.__init__ calls tempfile.mkstemp() and drops the descriptor and the file:
@@ -965,10 +975,10 @@ def conformance(w, scratch, batch, budget):
       if q != mine:
         res[ident].append("ninja -t query %r = %s but the parsed plan says %s" % (st.outs[0], q, mine))
   if m_cmds != commands:
-    diff = sorted((m_cmds - commands) + (commands - m_cmds))
-    for c in diff[:3]:
+    for c in sorted((m_cmds - commands) + (commands - m_cmds)):
       ident = _owner_by_prefix(batch, c)
-      res[ident].append("ninja -t commands and the evaluated plan disagree on %r" % c)
+      if len(res[ident]) < 4:
+        res[ident].append("ninja -t commands and the evaluated plan disagree on %r" % c)
   ok = sum(1 for b in batch if b[0] not in res)
   return res, ok, 0
 
@@ -984,9 +994,9 @@ def _owner_by_prefix(batch, text):
 
 
 def case_of(spec, request):
-  n, edges, kinds, rs, os_ = spec
+  n, edges, kinds, rs, os_, order = spec
   return {"n": n, "edges": [list(e) for e in edges], "kinds": kinds, "root": rs, "out": os_,
-          "request": list(request)}
+          "order": order, "request": list(request)}
 
 
 def _scrub(msg, scratch):
@@ -1036,7 +1046,8 @@ def check_case(case, base):
   """One plan, in this process, with the ninja cross-check.  Returns list of messages."""
   w = _worker_init(base)
   scratch = tempfile.mkdtemp(prefix="one", dir=base)
-  spec = (case["n"], tuple(tuple(e) for e in case["edges"]), case["kinds"], case["root"], case["out"])
+  spec = (case["n"], tuple(tuple(e) for e in case["edges"]), case["kinds"], case["root"], case["out"],
+          case.get("order", "set"))
   request = tuple(case["request"])
   stats = collections.Counter()
   pdir = os.path.join(scratch, "p0")
@@ -1103,9 +1114,9 @@ def run(rep, tier, seed):
         rep.violation(vrun.jkey(case), msgs[0], dict(case, all=msgs))
     # two verbatim samples, regenerated here
     for case in ({"n": 3, "edges": [[0, 1], [1, 0], [2, 0]], "kinds": "LPS", "root": "all", "out": "all",
-                  "request": [2]},
+                  "order": "set", "request": [2]},
                  {"n": 2, "edges": [[0, 1]], "kinds": "LL", "root": "space", "out": "dollar",
-                  "request": [0, 1]}):
+                  "order": "desc", "request": [0, 1]}):
       bad, st, plan, outdir = check_case(case, base)
       if plan is not None:
         with open(os.path.join(outdir, "build.ninja")) as f:
@@ -1160,6 +1171,7 @@ def replay(case):
   old_tmp = tempfile.tempdir
   try:
     c = {k: case[k] for k in ("n", "edges", "kinds", "root", "out", "request")}
+    c["order"] = case.get("order", "set")
     bad, _, _, _ = check_case(c, base)
   finally:
     tempfile.tempdir = old_tmp
